@@ -49,6 +49,24 @@ def plan(ctx: Ctx) -> list:
                for tp in (['a2', 'a3'] if q else ['a1', 'a2', 'a3', 'd11'])
                for n in ctrees],
               1, 'deviation', 50 if q else 600))
+    # the worker's two threads at source-line granularity *inside* a world
+    # with a real server: recv_incoming's SUBMIT/SUBMIT_BATCH handling (task
+    # enqueue + read receipt) against the main thread's "nothing left, send
+    # WAITING" step around read_receipt_mutex, judged by the server's counters
+    from vf.scenarios import line_funcs
+
+    def lspec(tp: str, n: str) -> dict:
+        d = spec(tp, n, trees[n])
+        d['name'] += '/line-w0'
+        d['line'] = ['w0']
+        d['line_funcs'] = line_funcs()
+        return d
+    lw = [('a1', 'fan1'), ('a1', 'fan2')] if q else \
+        [('a1', 'fan1'), ('a1', 'fan2'), ('a2', 'fan1'), ('d11', 'fan1'),
+         ('a2', 'fan2')]
+    P.append(('world+worker-lines/preempt<=1',
+              [lspec(tp, n) for tp, n in lw],
+              1, 'preemption', 60 if q else 1500))
     small = [('a2', 'fan3'), ('a2', 'fan2x2')]
     if not q:
         small = [(tp, n) for tp in ('a1', 'a2', 'a3', 'd11', 'd2')
